@@ -22,6 +22,8 @@ for i, a in enumerate(sys.argv):
     if a == "--demo":
         demo = True
 wt = f"/tmp/re_{name}"
+snap = f"/tmp/vsnap_{name}"
+subprocess.run(["rsync", "-a", "--delete", "--exclude", "evidence", "--exclude", "replays", "--exclude", "seeded", "--exclude", ".git", "/verif/", snap + "/"], check=True)
 subprocess.run(["git", "-C", "/repo", "worktree", "remove", "--force", wt], capture_output=True)
 subprocess.run(["git", "-C", "/repo", "worktree", "add", "-q", "--detach", wt, "HEAD"], check=True)
 try:
@@ -46,14 +48,12 @@ try:
         meta["demo_with_patch_exit"] = run_demo()
     det = dict(meta.get("checks", {}))
     for c in checks:
-        r = subprocess.run(["./vcheck", c, "--tier", tier], cwd="/verif", env=dict(os.environ, VERIF_REPO=wt), capture_output=True, text=True, timeout=7200)
+        r = subprocess.run(["./vcheck", c, "--tier", tier], cwd=snap, env=dict(os.environ, VERIF_REPO=wt), capture_output=True, text=True, timeout=7200)
         sigs = [l.strip()[len("violation: "):][:200] for l in r.stdout.split("\n") if l.strip().startswith("violation:")]
         det[c] = {"exit": r.returncode, "violations": sigs[:6], "violation_line": "VIOLATION property=" in r.stdout}
         if r.returncode != 0 and not det[c]["violation_line"]:
             det[c]["crashed"] = (r.stdout + r.stderr)[-300:]
         print(c, det[c]["exit"], det[c]["violation_line"], sigs[:2])
-    subprocess.run(["git", "checkout", "--", "evidence"], cwd="/verif")
-    subprocess.run(["git", "clean", "-fdq", "replays"], cwd="/verif")
     meta["checks"] = det
     meta["detected_by"] = [c for c, x in det.items() if x["exit"] == 1 and x["violation_line"]]
     meta["rechecked_at_repo_head"] = subprocess.run(["git", "-C", "/repo", "rev-parse", "--short", "HEAD"], capture_output=True, text=True).stdout.strip()
@@ -62,3 +62,4 @@ try:
     json.dump(meta, open(d + "/meta.json", "w"), indent=1)
 finally:
     subprocess.run(["git", "-C", "/repo", "worktree", "remove", "--force", wt], capture_output=True)
+    shutil.rmtree(snap, ignore_errors=True)
